@@ -161,6 +161,16 @@ def _strict_unencodable(tree, encoding):
     return False
 
 
+def _lf_in_cell(tree, inside=False):
+    if tree["k"] == "elem" and tree["ns"] == "html":
+        name = dec(tree["n"])
+        if name in ("td", "th", "caption"):
+            inside = True
+        if inside and name in rt.LF_DROPPERS and tree["c"] and tree["c"][0]["k"] == "text" and tree["c"][0]["d"][:1] == [10]:
+            return True
+    return any(_lf_in_cell(c, inside) for c in tree["c"])
+
+
 def _select_for_tlc(res, seed, per_tree, frac, cap_full):
     """indices of the outputs TLC judges.  Generated trees: a seeded fraction `frac` of the trees, for each the first
     (default-like) output, per_tree-1 seeded picks and every output the real parser did not read back to the tree.
@@ -269,9 +279,15 @@ class Judge(object):
             st["skipped_nonconforming" if skip == "skip:nonconforming" else "skipped_not_fixpoint"] += 1
             bs["skipped_nonconforming" if skip == "skip:nonconforming" else "skipped_not_fixpoint"] += 1
             if skip == "skip:not-fixpoint":
-                ctx.notes.setdefault("not_fixpoint_examples", [])
-                if len(ctx.notes["not_fixpoint_examples"]) < 5:
-                    ctx.notes["not_fixpoint_examples"].append(treeproj.show(res["tree"])[:300])
+                # a conforming tree that the code-faithful parser specification does not read back from the reference form.
+                # Known cause: text starting with LF in pre/textarea inside a table cell / caption, where html5lib's parser does not
+                # drop the LF after the start tag (C01 finding tc-cell-caption-ws-base), so the reference serializer's extra LF stays.
+                cause = "lf-in-cell-or-caption (tc-cell-caption-ws-base)" if _lf_in_cell(res["tree"]) else "other"
+                nf = ctx.notes.setdefault("not_fixpoint_by_cause", {})
+                nf[cause] = nf.get(cause, 0) + 1
+                ex = ctx.notes.setdefault("not_fixpoint_examples", [])
+                if len(ex) < 6 and (cause == "other" or len(ex) < 2):
+                    ex.append({"src": src, "cause": cause, "tree": treeproj.show(res["tree"]).replace("\n", " | ")[:1500]})
             return
         tree = res["tree"]
         for i, x in enumerate(res["outs"]):
@@ -405,7 +421,7 @@ def run(ctx):
     judge.flush()
     gen_stats = dict(judge.stats)
     # ---- 3. code -> spec on wider inputs ----
-    jobs = wide_trees(ctx, 150 if qk else 5000, 200 if qk else 3000, 150 if qk else 3000)
+    jobs = wide_trees(ctx, 150 if qk else 2500, 200 if qk else 3000, 150 if qk else 3000)
     hand = [j for j in jobs if j["src"] == "hand-built"]
     rest = [j for j in jobs if j["src"] != "hand-built"]
     for res in core.parallel(_tree_job, hand, chunk=1):          # one full cross product per worker
